@@ -11,6 +11,7 @@ import (
 
 func init() {
 	register(&Property{ID: "C29", Run: runC29, Mutants: []Mutant{
+		{Name: "exit(0) from a start function reported as a successful instantiation", File: "internal/3rdparty/wazero/namespace.go", Old: "\t\t\tif _, ok := err.(*sys.ExitError); ok {\n\t\t\t\treturn // Don't wrap an exit error", New: "\t\t\tif se, ok := err.(*sys.ExitError); ok {\n\t\t\t\tif se.ExitCode() == 0 { // Don't err on success.\n\t\t\t\t\terr = nil\n\t\t\t\t}\n\t\t\t\treturn // Don't wrap an exit error", Expect: "exit-error-kept"},
 		{Name: "init failure wrapped before it is returned (exit status lost)", File: "internal/wazero/module.go", Old: "\tif p.wazeroInitErr != nil {\n\t\terr = p.wazeroInitErr\n\t\treturn\n\t}", New: "\tif p.wazeroInitErr != nil {\n\t\terr = fmt.Errorf(\"wazero: init failed: %w\", p.wazeroInitErr)\n\t\treturn\n\t}", Expect: "exit-error-identity"},
 		{Name: "compiler engine loses the error for the integer-overflow status", File: "internal/3rdparty/wazero/internal/engine/compiler/engine.go", Old: "\tcase nativeCallStatusIntegerOverflow:\n\t\terr = wasmruntime.ErrRuntimeIntegerOverflow\n", New: "", Expect: "engine-trap-status-exhaustive"},
 		{Name: "CmdRunAction trap path returns nil without exit", File: "internal/app/apprun/apprun.go", Old: "\t\tfmt.Println(err)\n\t\tos.Exit(1)\n\t} else {", New: "\t\tfmt.Println(err)\n\t} else {", Expect: "failure-reaches-failing-exit"},
@@ -98,6 +99,7 @@ func runC29(c *Ctx) {
 	if wzPk != nil {
 		c29ExitErrorIdentity(c, p, wzPk)
 		c29TrapStatus(c, p)
+		c29ExitErrorKept(c, p, p.Pkg("internal/3rdparty/wazero"), wzPk)
 	}
 	if mainPk == nil || runPk == nil || wzPk == nil {
 		return
@@ -170,16 +172,33 @@ func runC29(c *Ctx) {
 		}
 		c.Count("functions_analysed", 1)
 		total += errBranchRule(c, p, r1, fn, mainOK || spec.pk == "internal/wazero", exempt)
+		// helpers of the same package that are handed an error (`reportRunResult(stdout, stderr, err)`): the tests and
+		// exits that decide the status may have been moved there
+		for _, g := range errorHelpers(fn) {
+			c.Count("functions_analysed", 1)
+			total += errBranchRule(c, p, r1, g, false, exempt)
+		}
 	}
 	c.Min(r1, "tested errors", total, 8)
 
 	// rule 3 and 4: every os.Exit in the run action.
 	exits := 0
+	var exitFns []*ssa.Function
 	for _, name := range []string{"CmdRunAction", "runWasm"} {
-		fn := p.SSAFunc(runPk, name)
-		if fn == nil {
-			continue
+		if fn := p.SSAFunc(runPk, name); fn != nil {
+			exitFns = append(exitFns, fn)
+			for _, g := range errorHelpers(fn) {
+				dup := false
+				for _, x := range exitFns {
+					dup = dup || x == g
+				}
+				if !dup {
+					exitFns = append(exitFns, g)
+				}
+			}
 		}
+	}
+	for _, fn := range exitFns {
 		tests := errTests(fn)
 		dom := func(b *ssa.BasicBlock) *ErrTest {
 			for i := range tests {
